@@ -42,7 +42,8 @@ def stream_case(case):
     m = fk.load()
     ap = m.adb_protocol
     ap.STREAM_ID_LIMIT = 2 ** 16
-    script = [{'open': 'OKAY', 'wrtes': list(st_['wrtes']), 'close': bool(st_['close']), 'echo': bool(st_.get('echo'))} for st_ in case['streams']]
+    script = [{'open': 'OKAY', 'wrtes': list(st_['wrtes']), 'close': bool(st_['close']), 'echo': bool(st_.get('echo')),
+               'ack_delay_s': st_.get('ack_delay_s')} for st_ in case['streams']]
     ap.ADB_MESSAGE_LOG = bool(case.get('msglog'))      # --adb_message_log: connect() wraps the transport in the logging adapter
     dev = fk.ScriptedAdbDevice(script, merge=list(case['merge']), maxdata=case['maxdata'], cond_factory=lambda: V.VCondition(sched=s),
                                max_block_s=None)
@@ -218,6 +219,8 @@ def check(case):
       what = 'reordered-or-foreign' if sorted(got) != sorted(want) or len(got) != len(want) else 'reordered'
       r.bad('C14/wrong-bytes/%s' % what, 'stream %d: read %r, device wrote %r; %s' % (i, got, want, desc))
   for e in res['errors']:
+    if e[0] == 'write' and case['streams'][e[1]].get('ack_delay_s') and e[2] in ('AdbTimeoutError', 'UsbReadFailedError'):
+      continue       # a device that acknowledges slowly: running into the timeout is what the write is supposed to do
     if e[0] == 'write':
       r.bad('C14/write-raised/%s' % e[2], 'stream %d: %s; %s' % (e[1], e[3], desc))
     if e[0] == 'open':
@@ -315,6 +318,12 @@ ECHO_CASES = [
      'merge': [0, 1], 'maxdata': 16, 'msglog': True}]
 
 
+# a device that acknowledges every chunk late: the chunks of one write share the write's timeout
+SLOW_ACK_CASES = [
+    {'streams': [{'wrtes': [], 'close': False, 'read_len': 0, 'read_timeout_ms': None, 'write_len': n * md, 'write_timeout_ms': 2000, 'ack_delay_s': d}],
+     'merge': [], 'maxdata': md} for md in (4, 16) for n in (1, 2, 3, 4) for d in (0.3, 0.9, 1.5)]
+
+
 STALL_CASES = [
     {'streams': [{'wrtes': ['abcd', 'efgh'], 'close': False, 'read_len': 0, 'read_timeout_ms': 2000, 'write_len': 0, 'write_timeout_ms': None},
                  {'wrtes': ['xy'], 'close': False, 'read_len': 0, 'read_timeout_ms': None, 'write_len': 0, 'write_timeout_ms': None}],
@@ -377,6 +386,12 @@ def run_job(job, acct):
     # a request/response service (the device speaks only once it has been written to), plain and with the message log on:
     # the writer is descheduled for 50 ms at every line of its write path, so the reader is already parked in the
     # transport read when the write arrives - the pipe is full duplex, the write goes through and the answer wakes the reader
+    for base in SLOW_ACK_CASES:
+      r0, _ = check(base)
+      acct.case(base, True, r0.classes + ['slow-acks'])
+      for sig, detail in r0.violations:
+        (acct.known if sig in known else acct.violation)(sig, base, detail)
+    acct.exhaustive_parts.append('slow acknowledgements: maxdata x 1-4 chunks x ack delay 0.3/0.9/1.5 s against a 2 s write timeout')
     for base in ECHO_CASES:
       r0, s0 = check(dict(base, trace=True))
       acct.case(base, r0.nontrivial, r0.classes)
